@@ -400,6 +400,28 @@ static long pgen_L5 (PgenCb cb, void *user)
   return count;
 }
 
+/* LB: programs whose compile-time integers sit on the boundaries of the one-byte / escaped encoding used when a
+ * program is serialised (constant n and m of 253..257; the generated wrappers rebuild the program from that form). */
+static long pgen_LB (PgenCb cb, void *user)
+{
+  long count = 0;
+  int k, two;
+  for (two = 0; two < 2; two++) for (k = 253; k <= 257; k++) {
+    VProg p;
+    int d, s1, s2;
+    memset (&p, 0, sizeof (p));
+    d = vprog_addvar (&p, VK_D, 1);
+    s1 = vprog_addvar (&p, VK_S, 1);
+    s2 = vprog_addvar (&p, VK_S, 1);
+    vprog_addinsn (&p, "addb", 0, 3, d, s1, s2, -1);
+    if (two) { p.is2d = 1; p.cn = 8; p.cm = k; } else p.cn = k;
+    pg_name (&p, "LB", count);
+    cb (&p, user);
+    count++;
+  }
+  return count;
+}
+
 /* L6: every plain opcode (and the accumulating ones) under register pressure: k filler temporaries are live across
  * the tested instruction, so that its operands are allocated in the upper registers (xmm8..15: REX/VEX extension
  * bits, three-byte VEX forms).  All-array operands, x1, 1-D. */
